@@ -18,9 +18,13 @@
 package sql
 
 import (
+	"context"
+	"database/sql/driver"
+
 	"github.com/pkg/errors"
 
 	"seata.apache.org/seata-go/pkg/datasource/sql/undo"
+	"seata.apache.org/seata-go/pkg/util/log"
 )
 
 // ATTx
@@ -33,11 +37,14 @@ type ATTx struct {
 // case 2. not need flush undolog, is XA mode, do local transaction commit
 // case 3. need run AT transaction
 func (tx *ATTx) Commit() error {
+	// the local transaction ends here whatever the outcome: the connection is in autocommit mode again
+	defer tx.resetAutoCommit()
 	tx.tx.beforeCommit()
 	return tx.commitOnAT()
 }
 
 func (tx *ATTx) Rollback() error {
+	defer tx.resetAutoCommit()
 	err := tx.tx.Rollback()
 	if err != nil {
 
@@ -51,19 +58,50 @@ func (tx *ATTx) Rollback() error {
 	return err
 }
 
+func (tx *ATTx) resetAutoCommit() {
+	if tx.tx.conn != nil {
+		tx.tx.conn.autoCommit = true
+	}
+}
+
+// rollbackLocal ends the local transaction after a phase-one failure, so that the
+// connection never goes back to the pool inside an open transaction
+func (tx *ATTx) rollbackLocal() {
+	if tx.tx.target == nil {
+		return
+	}
+	err := tx.tx.target.Rollback()
+	if err == nil {
+		return
+	}
+	// a driver Tx is detached from its connection once Commit was tried (go-sql-driver): say it in SQL
+	if execer, ok := tx.tx.conn.targetConn.(driver.ExecerContext); ok {
+		if _, err = execer.ExecContext(context.Background(), "ROLLBACK", nil); err == nil {
+			return
+		}
+	}
+	log.Errorf("local rollback after a phase one failure: %v", err)
+}
+
 // commitOnAT
 func (tx *ATTx) commitOnAT() error {
 	originTx := tx.tx
 	if err := originTx.register(originTx.tranCtx); err != nil {
+		tx.rollbackLocal()
 		return err
 	}
 
 	undoLogMgr, err := undo.GetUndoLogManager(originTx.tranCtx.DBType)
 	if err != nil {
+		tx.rollbackLocal()
+		if rerr := originTx.report(false); rerr != nil {
+			return errors.WithStack(rerr)
+		}
 		return err
 	}
 
 	if err = undoLogMgr.FlushUndoLog(originTx.tranCtx, originTx.conn.targetConn); err != nil {
+		tx.rollbackLocal()
 		if rerr := originTx.report(false); rerr != nil {
 			return errors.WithStack(rerr)
 		}
@@ -71,6 +109,7 @@ func (tx *ATTx) commitOnAT() error {
 	}
 
 	if err := originTx.commitOnLocal(); err != nil {
+		tx.rollbackLocal()
 		if rerr := originTx.report(false); rerr != nil {
 			return errors.WithStack(rerr)
 		}
